@@ -232,6 +232,15 @@ func (in *Interp) installStubs4() {
 		return in.strSlice(in.nativeOf(a[0].(Ptr)).(*regexp.Regexp).SubexpNames())
 	}
 	S["(*regexp.Regexp).FindAllStringSubmatchIndex"] = func(in *Interp, a []Value) Value {
+		// contract mode: a harness may supply the match list itself (hRegexpFindAll returns
+		// (matches, true)), constrained only by the documented contract of the method
+		if f := in.harnessFunc("hRegexpFindAll"); f != nil {
+			if res, ok := in.callValue(f, []Value{a[1], a[2]}).(Tuple); ok && len(res) == 2 {
+				if b, isT := res[1].(*smt.Term); isT && b.IsTrue() {
+					return res[0]
+				}
+			}
+		}
 		r := in.nativeOf(a[0].(Ptr)).(*regexp.Regexp)
 		xs := r.FindAllStringSubmatchIndex(subject(in, a[1]), in.concInt(a[2], "n"))
 		if xs == nil {
